@@ -6,7 +6,7 @@ from engb import H
 def run(ck):
     B = engb.EngineB(ck)
     quick = ck.tier == 'quick'
-    ck.bounds += ['tables of <= 6 (quick) / <= 8, optionally 12 (thorough) transitions: all lengths, hence both parities and every mid-point pattern of the binary search to depth 3; 3 local time types; trailing rule none or Fixed(any); leap variant: <= 4 (6) transitions with <= 3 leap records',
+    ck.bounds += ['binary-search helper and lookup: every table length 0..64 with fixed increasing times (symbolic key); symbolic contents: tables of <= 6 (quick) / <= 8, optionally 12 (thorough) transitions: all lengths, hence both parities and every mid-point pattern of the binary search to depth 3; 3 local time types; trailing rule none or Fixed(any); leap variant: <= 4 (6) transitions with <= 3 leap records',
                   'arbitrary i64 transition times and instants, arbitrary i32 offsets; zones filtered by the real TimeZoneRef::new; longer tables are outside the claim']
     ck.trusted += ['Kani 0.68 / CBMC 6.11 (dev profile)']
     ck.stubs += ['S_unreach: RuleDay::unix_time / AlternateTime::find_local_time_type := assert!(false) (no Alternate rule in these harnesses; DST rules are C04)',
@@ -14,6 +14,8 @@ def run(ck):
     hs = [H('c03_lookup_n6', cap=1200, playback=True, meaning='lookup == linear-scan reference (ptr-equal local time type), type 0 before the first transition, rule / NoAvailableLocalTimeType at or after the last; n<=6, no leap seconds'),
           H('c03_lookup_leap_n4', cap=1500, playback=True, meaning='same with <=3 leap records: "at or before" is judged at the UTC instant each transition count denotes (declarative C12 definition); n<=4'),
           H('c03_plumb', cap=1200, meaning='DateTime::from_timespec = lookup composed with from_timespec_and_local: fields are those of t+offset, unix_time=t, ns and type copied, OutOfRange iff t+offset leaves the range')]
+    hs += [H('c03_binary_search_transitions_every_length_upto_64', cap=600, playback=True, meaning='the shared binary-search helper on a fixed strictly increasing table of EVERY length 0..64 and every key before / at / between / after the entries: Ok(index) or Err(insertion point) (comparison-based search: index arithmetic depends only on comparison outcomes, exhausted by the symbolic key)'),
+           H('c03_lookup_every_length_upto_64_concrete_table', cap=600, playback=True, meaning='find_local_time_type on zones with 0..64 transitions (fixed increasing times, no rule): NoAvailableLocalTimeType exactly at/after the last transition, no out-of-bounds probe for any length')]
     if not quick:
         hs += [H('c03_lookup_n8', cap=3600, playback=True, meaning='n<=8'), H('c03_lookup_n12', cap=7200, playback=True, required=False, meaning='n<=12 (binary search depth 4)'),
                H('c03_lookup_leap_n6', cap=7200, playback=True, required=False, meaning='n<=6 with <=3 leap records')]
@@ -110,19 +112,24 @@ def replay_plumb(ck, B, h):
     if len(vecs) > k + 2:
         z.types = z.types[:max(1, min(3, engb.le_int(vecs[k + 2], False)))]   # number of local time types the harness used
     nat = common.Native()
-    cmd = f'localtime {z.cmd()} {t} {ns}'
-    for o in nat.both([cmd])[0]:
-        if o.startswith('err zone') or o.startswith('err parse'):
-            break
-        l = z.lookup(t)
-        if l is None:
-            want = 'err'
-        else:
-            w = t + l[0]
-            want = 'err' if not (calref.MIN_T <= w <= calref.MAX_T) else 'ok ' + ' '.join(map(str, calref.gmtime(w)[:6])) + f' {ns} {t} {l[0]} {l[1]} -'
-        if (want == 'err') != o.startswith('err') or (want != 'err' and not o.startswith(want)):
-            ck.violation(f'{h.name}: `{cmd}` gives {o!r}; the zone prescribes {want!r}', {'cmd': cmd, 'want': want, 'kind': 'plumb'})
-            return
+    # the solver's instant, then the decoded zone's own boundary instants (CBMC returns any failing instant, often an extreme one)
+    cands = [t] + [x for (tt, _) in z.tr for x in (z.l2u(tt) - 1, z.l2u(tt), z.l2u(tt) + 1)]
+    for tc in cands:
+        cmd = f'localtime {z.cmd()} {tc} {ns}'
+        for o in nat.both([cmd])[0]:
+            if o.startswith('err zone') or o.startswith('err parse'):
+                break
+            l = z.lookup(tc)
+            if l is None:
+                # no trailing rule and at/after the last transition: that specific error (the error kind is part of the statement);
+                # near the ends of i64 the scale conversion may overflow first, so any error is accepted there
+                want = 'err NoAvailableLocalTimeType' if abs(tc) < 2**62 else 'err'
+            else:
+                w = tc + l[0]
+                want = 'err' if not (calref.MIN_T <= w <= calref.MAX_T) else 'ok ' + ' '.join(map(str, calref.gmtime(w)[:6])) + f' {ns} {tc} {l[0]} {l[1]} -'
+            if want.startswith('err') != o.startswith('err') or (not want.startswith('err') and not o.startswith(want)) or (want.startswith('err ') and o != want):
+                ck.violation(f'{h.name}: `{cmd}` gives {o!r}; the zone prescribes {want!r}', {'cmd': cmd, 'want': want, 'kind': 'plumb'})
+                return
     ck.inconclusive.append(f'{h.name} FAILED ({h.failed_checks[:2]}) but the decoded counterexample does not reproduce natively')
 
 
@@ -134,4 +141,5 @@ def replay(ck, case):
     nat = common.Native()
     out = nat.both([c['cmd']])[0]
     print('native:', out, 'want:', c['want'])
-    return 1 if any(not o.startswith(c['want']) for o in out) else 0
+    w = c['want']
+    return 1 if any((not o.startswith(w)) or (w.startswith('err ') and o != w) for o in out) else 0
